@@ -168,7 +168,11 @@ func newSmcWorld(e *Env, wd bool) *smcWorld {
 		w.cli.VendorSpecificApplicationID = []*diam.AVP{diam.NewAVP(avp.VendorSpecificApplicationID, avp.Mbit, 0, &diam.GroupedAVP{AVP: []*diam.AVP{
 			diam.NewAVP(avp.VendorID, avp.Mbit, 0, datatype.Unsigned32(10415)),
 			diam.NewAVP(avp.AuthApplicationID, avp.Mbit, 0, datatype.Unsigned32(16777251))}})}
-		w.cli.SupportedVendorID = []*diam.AVP{diam.NewAVP(avp.SupportedVendorID, avp.Mbit, 0, datatype.Unsigned32(10415))}
+		sv := uint32(10415)
+		if t.Chance(1, 2) {
+			sv = 13 // the Supported-Vendor-Id list need not name the vendor of every vendor-specific application
+		}
+		w.cli.SupportedVendorID = []*diam.AVP{diam.NewAVP(avp.SupportedVendorID, avp.Mbit, 0, datatype.Unsigned32(sv))}
 		w.advertised[appKey{16777251, "auth"}] = true
 	}
 	w.start = time.Now()
